@@ -177,6 +177,22 @@ def w_wire(seed):
                         if s:
                             acc.bad(s + ":wire_field_%06X" % wire, {"kind": "addr", "p": [df, mm, addr]})
             acc.out.add(("wire", df))
+    # relations between fields: the payload repeats the address (string search / replace on the frame would be fooled)
+    for addr in (0x4840D6, 0xABCDEF, 0x000001, 0x101010, 0xFFFFFE):
+        rep = int(("%06X" % addr) * 5, 16)
+        for df in AP_DF + AA_DF:
+            for n in ((56, 112) if df in AP_DF else (NATURAL[df],)):
+                nd = (n - 29) if df in AP_DF else (3 + (56 if n == 112 else 0))
+                for sh in (0, 4, 8, 1):
+                    pay = (rep >> sh) & ((1 << nd) - 1)
+                    if df in AA_DF and n == 112:
+                        pay = (((rep >> sh) & ((1 << 56) - 1)) << 3) | 5
+                    m = build(df, n, addr, pay, 0)
+                    for mm in (m, m.lower()):
+                        acc.n += 1
+                        s = judge("addr", (df, mm, addr))
+                        if s:
+                            acc.bad(s + ":payload_repeats_the_address", {"kind": "addr", "p": [df, mm, addr]})
     for df in AA_DF:
         n = NATURAL[df]
         for ca in range(8):
@@ -353,4 +369,4 @@ def replay(case):
         s = judge_table(*case["p"])
         return [(s, case)] if s else []
     s = judge(case["kind"], tuple(case["p"]))
-    return ([(s, case)] + [(s + ":wire_field_%06X" % w, case) for w in (0, 0xFFFFFF, 1)]) if s else []
+    return ([(s, case), (s + ":payload_repeats_the_address", case)] + [(s + ":wire_field_%06X" % w, case) for w in (0, 0xFFFFFF, 1)]) if s else []
